@@ -176,6 +176,9 @@ def observe(o, run=True, runner=None):
             "selected": o.selected, "entrypoints_config": o.entrypoints_config,
             "definition_hash": o.definition_hash, "nodes": tuple(o.nodes), "name": o.name,
             "has_cycles": o.has_cycles, "has_async_nodes": o.has_async_nodes, "strict_types": o.strict_types,
+            # the edge structure as the public nx_graph shows it (which values every edge carries)
+            "edges": tuple(sorted((str(u), str(v), str(d.get("edge_type")), tuple(sorted(map(str, d.get("value_names") or ()))))
+                                  for u, v, d in o.nx_graph.edges(data=True))),
             "@nodes": tuple(id(n) for n in o.nodes.values()),
             "@nested": tuple(id(n.graph) for n in o.nodes.values() if hasattr(n, "map_config")),
         }
